@@ -1,7 +1,8 @@
 #!/bin/bash
-# runs every confirmed seed against its property's quick check; records the outcome in seeded/<id>/meta.json
+# runs every confirmed seed (or those matching the glob $1, default C*) against its property's quick check;
+# records the outcome in seeded/<id>/meta.json.  A round-2 first-run result is kept under detected_by.first_run_result.
 cd /verif
-for d in seeded/C*/; do
+for d in seeded/${1:-C*}/; do
   sid=$(basename $d); pid=${sid:0:3}
   [ -f $d/patch.diff ] || continue
   out=$(bin/seedtest.sh /verif/$d/patch.diff $pid --tier quick 2>&1)
@@ -11,8 +12,14 @@ for d in seeded/C*/; do
 import json,sys
 sid,rc,obs=sys.argv[1:4]
 p=f"/verif/seeded/{sid}/meta.json"; m=json.load(open(p))
-m["detected_by"]={"check": sid[:3]+" quick", "exit_code": int(rc) if rc else None, "violating_obligations": obs.split(), "detected": rc=="1"}
+old=m.get("detected_by") or {}
+new={"check": sid[:3]+" quick", "exit_code": int(rc) if rc else None, "violating_obligations": obs.split(), "detected": rc=="1"}
+if old.get("first_run") is True:
+    new["first_run_result"]={"detected": old.get("detected"), "violating_obligations": old.get("violating_obligations", [])}
+elif "first_run_result" in old:
+    new["first_run_result"]=old["first_run_result"]
+m["detected_by"]=new
 json.dump(m,open(p,"w"),indent=1)
-print(sid, "detected" if rc=="1" else "MISSED rc="+str(rc), obs)
+print(sid, "detected" if rc=="1" else "MISSED rc="+str(rc), obs, flush=True)
 PY
 done
